@@ -25,6 +25,12 @@ type netCase struct {
 		W   int  `json:"w"`
 		Td  bool `json:"td"`
 	} `json:"links"` // grouped by target, in the order of NNode.Incoming
+	// control (MIMO) nodes of a modular network - only in the information-only cases of MC_Modular
+	Ctrl []struct {
+		Act  string `json:"act"` // mul, max, min
+		Ins  []int  `json:"ins"`
+		Outs []int  `json:"outs"`
+	} `json:"ctrl"`
 }
 
 // the integer-closed activation functions of the specification
